@@ -210,7 +210,10 @@ def l1_run(ctx, algo, spec, answers=None):
     brute = R.brute_min_obj(prob, cand, k) if algo == SORT else None
 
     n = len(cand)
-    budget = 200 + 4 * (n ** k) * k * n     # > evaluations of any search whose every accepted move strictly improves (cv, score)
+    # evaluation budget of any search whose every accepted move strictly improves (cv, score): the value depends on the
+    # multiset of selected members only, so at most C(n+k-1,k) solutions are visited, each scan costs <= k*n evaluations;
+    # the sorting variants spend n single-member evaluations first
+    budget = 1 + n + (_fact(n + k - 1) // (_fact(k) * _fact(n - 1)) + 1) * k * n
 
     def run(ch):
         h = R.InitialDrawHandler(ch)
